@@ -200,6 +200,8 @@ pub enum Step {
     UntilLeader(u8),
     /// run the default schedule until node i is Candidate
     UntilCandidate(u8),
+    /// run the default schedule until some node other than i is Leader
+    UntilLeaderOtherThan(u8),
     Ev(Event),
     /// append at the (lowest-numbered) current leader
     AppendAtLeader,
@@ -228,6 +230,17 @@ pub fn build_base(name: &'static str, script: &[Step]) -> Base {
                 for _ in 0..*n {
                     let ev = default_event(&w);
                     go(&mut w, ev, &mut events);
+                }
+            }
+            Step::UntilLeaderOtherThan(i) => {
+                let mut n = 0;
+                while !w.leaders().iter().any(|l| *l != *i as usize) {
+                    let ev = default_event(&w);
+                    go(&mut w, ev, &mut events);
+                    n += 1;
+                    if n > 2000 {
+                        engine::machinery_failure(&format!("base {name}: no node other than {i} becomes leader on the default schedule"));
+                    }
                 }
             }
             Step::UntilCandidate(i) => {
@@ -296,6 +309,9 @@ pub fn bases(thorough: bool) -> Vec<Base> {
         build_base("stale-leader-rejoins-after-new-commit", &[Settle, Ev(Isolate(0)), AppendAt(0), Default(4), Settle, AppendAtLeader, Settle, Ev(Heal)]),
         // leader 0 cut off; node 1 has just become candidate (its vote requests are in flight)
         build_base("reelection-in-progress-old-leader-cut-off", &[Settle, Ev(Isolate(0)), UntilCandidate(1)]),
+        // node 0 wins the first election with node 1's vote only (its Vote request to node 2 is lost) and is cut
+        // off at once; the others elect again; still partitioned (both sides may take client appends)
+        build_base("winner-of-a-one-vote-election-cut-off-others-reelected", &[Default(6), Ev(Drop(0)), Default(2), Ev(Isolate(0)), UntilLeaderOtherThan(0)]),
         // a follower was cut off while an entry was committed; it rejoins now
         build_base("lagging-follower-rejoins", &[Settle, Ev(Isolate(2)), AppendAtLeader, Settle, Ev(Heal)]),
     ];
